@@ -106,6 +106,11 @@ def family(quick):
         {"a": "sendResp", "tag": 4242}, {"a": "sendResp", "tag": 7}, {"a": "sendCallAck", "callID": "nobody", "code": 1},
         {"a": "sendCall", "callID": "c1", "reqID": "nobody", "tag": 1},
         {"a": "read", "g": "T", "obj": "D1", "ctxMs": CTX, "wait": True}, {"a": "sleep", "ms": 50},
+        # known upstream, unknown data-id alias (the second lookup of the same function), then a good chunk: the stream must go on
+        {"a": "sendChunk", "obj": "D1", "up": "X", "upF": "info", "upAl": 0, "seq": 3, "groups": [{"f": "id", "id": "A", "al": 0, "pts": [[3, 4]]}, {"f": "al", "id": "B", "al": 98, "pts": [[4, 4]]}]},
+        {"a": "read", "g": "T", "obj": "D1", "ctxMs": CTX, "wait": True},
+        {"a": "sendChunk", "obj": "D1", "up": "X", "upF": "info", "upAl": 0, "seq": 4, "groups": [{"f": "id", "id": "A", "al": 0, "pts": [[5, 4]]}]},
+        {"a": "read", "g": "T", "obj": "D1", "ctxMs": CTX, "wait": True}, {"a": "downState", "obj": "D1"}, {"a": "sleep", "ms": 50},
         {"a": "closeDown", "g": "T", "obj": "D1", "ctxMs": 1000, "wait": True}, {"a": "ackMode", "mode": "auto"},
         {"a": "closeUp", "g": "T", "obj": "U1", "ctxMs": 1000, "wait": True}]
     scs.append({"id": "C08/misaddressed/all", "kind": "iscp", "conn": dict(conn), "steps": mis + probes()})
